@@ -29,6 +29,9 @@ TRUSTED = [
 ]
 
 USER = b"Pair-Setup"
+# functions of hsrp.Server that are compared one by one when the class has them (see impl_numeric)
+OPTIONAL_FUNCS = {"_get_private_key", "_get_verifier", "_get_k", "_derive_B", "get_challenge", "_get_K", "_get_M",
+                  "_get_HAMK", "get_session_key", "get_session_key_bytes", "_padN_A", "_padN_B"}
 
 # pre-computed forced vectors (found once by rejection sampling on b with ref/srp_client.py):
 # kind K0: SHA-512(S) begins with a zero byte; S0 / A0 / B0: that value is shorter than 384 bytes
@@ -114,6 +117,16 @@ def _code(rng) -> str:
     return "".join(rng.choice("0123456789-abcXYZ") for _ in range(rng.randrange(1, 24)))
 
 
+def _hap_code(rng) -> str:
+    """a setup code in the HAP format XXX-XX-XXX (a driver can only be STARTED with such a code: its setup message
+    renders the code as a number)"""
+    return "%03d-%02d-%03d" % (rng.randrange(1000), rng.randrange(100), rng.randrange(1000))
+
+
+def _is_hap_code(c: str) -> bool:
+    return len(c) == 10 and c[3] == "-" and c[6] == "-" and c.replace("-", "").isdigit()
+
+
 def random_case(rng) -> Dict[str, Any]:
     salt = bytes(rng.randrange(256) for _ in range(16))
     r = rng.random()
@@ -181,6 +194,8 @@ def context_cases(ctx: Ctx) -> List[Dict[str, Any]]:
         c = random_case(rng)
         c["kind"] = "context"
         c.update(kw)
+        if any(k in LIFECYCLE for ks in c.get("between", {}).values() for k in ks) and not _is_hap_code(c["code"]):
+            c["code"] = _hap_code(rng)
         return c
 
     def pre(kind, conn):
@@ -195,6 +210,15 @@ def context_cases(ctx: Ctx) -> List[Dict[str, Any]]:
         out.append(base(between={"M1-M3": [kind]}))
         out.append(base(between={"M3-M5": [kind]}))
         out.append(base(between={"pre": [kind], "M1-M3": [kind], "M3-M5": [kind]}))
+    # object lifecycle: the application (which supplies its own event loop) starts the driver — the normal production
+    # state —, stops it and starts the SAME object again; only then, or in the middle of the exchange (the controller
+    # reconnects), the controller with the correct code runs
+    out.append(base(between={"pre": ["start"]}))
+    out.append(base(between={"pre": ["start", "stop", "start"]}))
+    out.append(base(between={"pre": ["start", "stop", "start", "stop", "start"]}))
+    out.append(base(between={"pre": ["start"], "M1-M3": ["stop", "start"]}))
+    out.append(base(between={"pre": ["start"], "M3-M5": ["stop", "start"]}))
+    out.append(base(prefix=[pre("abandon-M4", 0)], between={"pre": ["start", "stop", "start", "made-lost"]}))
     # another accessory with another setup code in the same process was used first / the setup code of this
     # driver was changed after an earlier exchange: the controller with the CURRENT code of THIS accessory completes
     for same in (False, True, False, True):
@@ -211,6 +235,14 @@ def context_cases(ctx: Ctx) -> List[Dict[str, Any]]:
         if rng.random() < 0.6:
             c["between"] = {pos: [rng.choice(BYSTANDERS) for _ in range(rng.randrange(0, 3))]
                             for pos in ("pre", "M1-M3", "M3-M5")}
+        if rng.random() < 0.35:   # the driver object has been started (and possibly stopped and started again)
+            if not _is_hap_code(c["code"]):
+                c["code"] = _hap_code(rng)
+            c.setdefault("between", {})
+            c["between"]["pre"] = ["start"] + ["stop", "start"] * rng.choice([0, 1, 1, 2]) + c["between"].get("pre", [])
+            if rng.random() < 0.3:
+                pos = rng.choice(["M1-M3", "M3-M5"])
+                c["between"][pos] = c["between"].get(pos, []) + ["stop", "start"]
         out.append(c)
     return out
 
@@ -237,6 +269,29 @@ def impl_numeric(code: bytes, salt: bytes, b: int, A: bytes, M: Optional[bytes])
             "u": hx(ref.i2b(srv.u)), "S": hx(ref.i2b(srv.S)), "K": hx(ref.i2b(srv.get_session_key())),
             "Kb": hx(srv.Kb), "M": hx(srv.M), "HAMK": hx(srv.HAMK),
         }
+        # every remaining function of hsrp.Server, called on its own on the real object — where it exists: private
+        # helpers may be inlined or renamed by a behaviour-preserving change, so each is compared only if present
+        opt = {
+            "_get_private_key": lambda f: hx(ref.i2b(f())),
+            "_get_verifier": lambda f: hx(ref.i2b(f())),
+            "_get_k": lambda f: hx(ref.i2b(f())),
+            "_derive_B": lambda f: hx(ref.i2b(f())),
+            "get_challenge": lambda f: [hx(f()[0]), hx(ref.i2b(f()[1]))],
+            "_get_K": lambda f: hx(ref.i2b(f())),
+            "_get_M": lambda f: hx(f()),
+            "_get_HAMK": lambda f: hx(f()),
+            "get_session_key": lambda f: hx(ref.i2b(f())),
+            "get_session_key_bytes": lambda f: hx(f()),
+        }
+        for name, view in opt.items():
+            f = getattr(srv, name, None)
+            if callable(f):
+                try:
+                    out[name] = view(f)
+                except Exception as ex:  # noqa: BLE001
+                    out[name] = {"raises": type(ex).__name__}
+        if callable(getattr(srv, "_padN", None)):
+            out["_padN_A"], out["_padN_B"] = hx(srv._padN(A)), hx(srv._padN(srv.Bb))
         if M is not None:
             r = srv.verify(M)
             out["verify"] = None if r is None else hx(r)
@@ -281,6 +336,10 @@ def oracle_numeric(ctx: Ctx, case: Dict[str, Any], got: Dict[str, Any], cl: ref.
 # --------------------------------------------------------------------------- real code: exchange
 
 
+class _Lifecycle(Exception):
+    pass
+
+
 def run_exchange(case: Dict[str, Any]):
     """M1..M6 of the reference controller against the real handler.  Returns (script, verdicts)."""
     from cryptography.hazmat.primitives.asymmetric import ed25519
@@ -311,8 +370,20 @@ def run_exchange(case: Dict[str, Any]):
     try:
         for p in case.get("prefix", []):
             _run_prefix(sc, code, p)
-        for k in between.get("pre", []):
-            sc.bystander(k)
+        def interlude(pos):
+            nonlocal conn
+            for k in between.get(pos, []):
+                if k in LIFECYCLE:
+                    try:
+                        sc.lifecycle(k)
+                    except Exception as ex:  # noqa: BLE001  (the application cannot even start / stop its driver)
+                        raise _Lifecycle(f"AccessoryDriver.async_{k} raised {type(ex).__name__}: {ex}") from ex
+                    if k == "start" and pos != "pre":
+                        conn += 10   # a restart closes every connection: the controller continues on a new one
+                else:
+                    sc.bystander(k)
+
+        interlude("pre")
         r = sc.send(pc.m1_body(), salt, secret, conn=conn, idents=[ident])
         t = pc.parse(r["body"]) if r["status"] == 200 else None
         if not t or t.get(pc.T_STATE) != b"\x02" or pc.T_ERROR in t or pc.T_SALT not in t or pc.T_PUBLIC_KEY not in t:
@@ -323,8 +394,7 @@ def run_exchange(case: Dict[str, Any]):
         v["lead"] = {"A": 384 - len(cl.A_bytes), "B": 384 - len(t[pc.T_PUBLIC_KEY]),
                      "S": 384 - len(ref.i2b(cl.S)), "K": len(cl.K) - len(cl.K.lstrip(b"\x00"))}
         v["stage"] = "M3"
-        for k in between.get("M1-M3", []):
-            sc.bystander(k)
+        interlude("M1-M3")
         r = sc.send(pc.m3_body(cl.A_bytes, cl.M1), salt, secret, conn=conn)
         t = pc.parse(r["body"]) if r["status"] == 200 else None
         if not t or t.get(pc.T_STATE) != b"\x04" or pc.T_ERROR in t:
@@ -335,8 +405,7 @@ def run_exchange(case: Dict[str, Any]):
             return sc, v
         v["stage"] = "M5"
         sub, ltpk = pc.m5_subtlv(cl.K, ident, ltsk)
-        for k in between.get("M3-M5", []):
-            sc.bystander(k)
+        interlude("M3-M5")
         r = sc.send(pc.m5_body(cl.K, sub), salt, secret, conn=conn)
         if r["status"] != 200:
             v["why"] = f"M5 answered with HTTP {r['status']}"
@@ -368,6 +437,9 @@ def run_exchange(case: Dict[str, Any]):
             return sc, v
         v["ok"] = True
         return sc, v
+    except _Lifecycle as ex:
+        v["why"] = str(ex)
+        return sc, v
     finally:
         env.close()
         if other_env is not None:
@@ -397,6 +469,7 @@ def _honest_run(sc, code: bytes, seed: int, full: bool):
 FAILED_ATTEMPTS = ("wrong-code", "wrong-proof", "bogus-M3", "short-M3", "garbage", "M3-no-M1", "degenerate", "bad-M5")
 ABANDONED = ("abandon-M1", "abandon-M4")
 BYSTANDERS = ("made-lost", "get-lost", "get")
+LIFECYCLE = ("start", "stop")   # the application starts / stops the SAME driver object (its own event loop stays alive)
 
 
 def _run_prefix(sc, code: bytes, p: Dict[str, Any]):
@@ -466,6 +539,10 @@ def _context(case) -> str:
         parts.append("bystander-connection-lost")
     if "get" in by:
         parts.append("bystander-request")
+    if "stop" in by:
+        parts.append("after-driver-restart")
+    elif "start" in by:
+        parts.append("driver-started")
     if case.get("before"):
         parts.append("after-setup-code-change" if case["before"].get("same_driver") else "after-exchange-on-another-accessory")
     return "+".join(parts)
@@ -532,9 +609,13 @@ def run(ctx: Ctx):
     rng = ctx.rng
     st.rule = (
         "streams: sha512 (Lean SHA-512 vs hashlib), numeric (hsrp.Server vs Srp.lean on (code,salt,b,A): "
-        "v,k,B,u,S,K,Kb,M,HAMK,verify byte for byte), exchange (reference controller M1..M6 against the real "
-        "handler and against PairSetup.lean; also after failed / abandoned attempts on the same or another connection "
-        "and with bystander connections made/lost or refused requests between the controller's messages).  Non-trivial: a numeric/exchange case that reaches set_A+verify "
+        "v,k,B,u,S,K,Kb,M,HAMK,verify byte for byte, and every other function of the class called on its own: "
+        "_get_private_key, _get_verifier, _get_k, _derive_B, get_challenge, _padN, _get_K, _get_M, _get_HAMK, "
+        "get_session_key, get_session_key_bytes), exchange (reference controller M1..M6 against the real "
+        "handler and against PairSetup.lean; also after failed / abandoned attempts on the same or another connection, "
+        "with bystander connections made/lost or refused requests between the controller's messages, and on a driver object "
+        "that the application has started, stopped and started again — real async_start / async_stop on its own loop — "
+        "before or in the middle of the exchange).  Non-trivial: a numeric/exchange case that reaches set_A+verify "
         "(all do); distinct by (code, salt, b, A / a)."
     )
     lines: List[Dict[str, Any]] = []
@@ -611,7 +692,7 @@ def run(ctx: Ctx):
             st.hit("op", "prefix-" + p["kind"] + ("-other-conn" if p["conn"] != case.get("conn", 0) else ""))
         for pos, ks in case.get("between", {}).items():
             for k in ks:
-                st.hit("op", f"bystander-{k}@{pos}")
+                st.hit("op", (f"lifecycle-{k}@{pos}" if k in LIFECYCLE else f"bystander-{k}@{pos}"))
         if case.get("before"):
             st.hit("op", "world-" + ("setup-code-changed" if case["before"].get("same_driver") else "other-accessory-first"))
         st.hit("outcome", "exchange-" + ("completed" if v["ok"] else "failed-at-" + v["stage"]))
@@ -624,6 +705,8 @@ def run(ctx: Ctx):
     for ln, m, i, tag in zip(lines, model, impl, tags):
         st.traces_validated += 1
         mv = pe.model_view(m) if tag[0] == "exchange" else m
+        if tag[0] == "numeric" and isinstance(i, dict) and "err" not in i and isinstance(m, dict):
+            mv = {k: v for k, v in m.items() if k in i or k not in OPTIONAL_FUNCS}
         if mv != i:
             ctx.disagree(tag[0], {"tag": tag, "line": pe.short(json.dumps(ln), 400)}, _diff(mv, i), "see model")
 
